@@ -3,6 +3,7 @@ package lcont
 import (
 	"encoding/binary"
 
+	"github.com/polynetwork/poly/account"
 	"github.com/polynetwork/poly/core/types"
 	hscom "github.com/polynetwork/poly/native/service/header_sync/common"
 	"github.com/polynetwork/poly/native/service/utils"
@@ -44,14 +45,24 @@ func (ontDriver) NewChain(h *e1.Harness, chainID uint64, seed uint64) (lc.Chain,
 }
 
 type ontLC struct {
-	h    *e1.Harness
-	c    *ontChain
-	next uint32
+	h     *e1.Harness
+	c     *ontChain
+	next  uint32
+	other uint32 // number of "other height" trust roots handed out (variant 3)
 }
 
 func (l *ontLC) GenesisTx(variant int) *types.Transaction {
 	var raw []byte
-	switch variant % 3 {
+	switch variant % 4 {
+	case 3: // another trust root (its own chain config) at a height where nothing is stored:
+		// alternately above the synced tip and below the first root
+		l.other++
+		h := l.next + 2 + l.other
+		if l.other%2 == 0 && l.c.g0 > 0 {
+			h = l.c.g0 - 1 - (l.other/2)%l.c.g0
+		}
+		set := append([]*account.Account{}, l.c.pool[ontPool-5:]...)
+		raw = sealHeader(l.c.build(h, 8888+uint64(l.other), chainConfig(1, set, false)), seal{})
 	case 0:
 		raw, _ = l.c.sealed(l.c.g0, 12, 0, 0)
 	case 1: // another peer set (and header) at the same height
@@ -123,13 +134,24 @@ func (d neoDriver) NewChain(h *e1.Harness, chainID uint64, seed uint64) (lc.Chai
 }
 
 type neoLC struct {
-	h    *e1.Harness
-	c    *neoChain
-	next uint32
+	h     *e1.Harness
+	c     *neoChain
+	next  uint32
+	other uint32
 }
 
 func (l *neoLC) GenesisTx(variant int) *types.Transaction {
-	raw, _ := l.c.genesis(int64(variant)) // 0 real, 1 other next-consensus, 2 same data with a witness attached
+	var raw []byte
+	if variant%4 == 3 { // another trust root at another index: alternately above the tip and below the first root
+		l.other++
+		idx := l.next + 2 + l.other
+		if l.other%2 == 0 && l.c.g0 > 0 {
+			idx = l.c.g0 - 1 - (l.other/2)%l.c.g0
+		}
+		raw = l.c.cd.header(idx, l.c.alt.hash, 9000+uint64(l.other), nil, []byte{0})
+	} else {
+		raw, _ = l.c.genesis(int64(variant % 4)) // 0 real, 1 other next-consensus, 2 same data with a witness attached
+	}
 	return l.h.Operator(chain.HeaderSync, hscom.SYNC_GENESIS_HEADER, chain.Args(&hscom.SyncGenesisHeaderParam{ChainID: l.c.id, GenesisHeader: raw}))
 }
 
